@@ -35,7 +35,7 @@ const VALUE_SHIFT_BITS: usize = 3;
 
 #[allow(unused)]
 /// The max integer value we can store in a value object
-const MAX_INT: isize = std::isize::MAX >> VALUE_SHIFT_BITS;
+pub(crate) const MAX_INT: isize = std::isize::MAX >> VALUE_SHIFT_BITS;
 
 #[allow(unused)]
 /// The minimum integer value we can store in a value object
